@@ -210,6 +210,8 @@ impl<Sink: TokenSink> XmlTokenizer<Sink> {
                 if c == '\u{feff}' {
                     input.next();
                 }
+                // Only a BOM at the very beginning of the stream is discarded.
+                self.discard_bom.set(false);
             } else {
                 return TokenizerResult::Done;
             }
